@@ -117,7 +117,7 @@ pub fn run(args: &Args) {
         }
         if i % 7 == 0 {
             // files directly under the root directory, both destination styles
-            let mut used: Vec<String> = cfg.files.iter().map(|f| f.dest.trim_start_matches('.').to_string()).collect();
+            let mut used: Vec<String> = cfg.files.iter().map(|f| gen_::installed_path(&f.dest)).collect();
             let mut f = gen_::rand_file(&mut rng, &mut used, 100);
             f.dest = format!("{}/rootfile{}", if i % 14 == 0 { "." } else { "" }, i);
             cfg.files.push(f);
